@@ -88,6 +88,10 @@ def gen_mol_spec(rng, cfg, small=False):
         spec = {'k': 'file', 'f': rng.choice(['isomorphism.sdf', 'isomorphism.sdf', 'mcs.sdf', 'hbonds.sdf', 'stereo.sdf']), 'i': rng.randrange(400)}
         if cfg.get('calc_ct'):
             spec['ct'] = True
+    elif r > 0.9 and not small:
+        sub_cfg = dict(cfg, file_share=0.0, name_p=0.0, meta_p=0.0)
+        spec = {'k': 'join', 'a': gen_mol_spec(rng, sub_cfg, True), 'b': gen_mol_spec(rng, sub_cfg, True),
+                'bond': [rng.randrange(32), rng.randrange(32), rng.choice([1, 1, 2, 8])]}
     else:
         spec = {'k': 'smi', 's': rng.choice(SMILES_POOL), 'edits': []}
         for _ in range(rng.choice([0, 0, 1, 1, 2, 3])):
@@ -134,6 +138,24 @@ class Unbuildable(Exception):
 def build_mol(spec):
     from chython import smiles
     from chython.containers import MoleculeContainer, ReactionContainer
+    if spec['k'] == 'join':
+        # two SMILES-born molecules merged and joined by one bond: more atoms, more property-block entries per record
+        a, b = build_mol(spec['a']), build_mol(spec['b'])
+        a._meta = b._meta = None
+        m = a | b
+        left, right = sorted(a), sorted(m._atoms.keys() - set(a))
+        n, k = left[spec['bond'][0] % len(left)], right[spec['bond'][1] % len(right)]
+        m.add_bond(n, k, spec['bond'][2])
+        m.flush_cache()
+        m.fix_structure()
+        if max(m) > 999:
+            m.remap({x: i for i, x in enumerate(list(m), start=1)})
+        if 'name' in spec:
+            m.name = spec['name']
+        if spec.get('meta'):
+            for kk, v in spec['meta']:
+                m.meta[kk] = v
+        return m
     if spec['k'] == 'file':
         recs = [r for r in _load_file(spec['f'], spec.get('ct')) if r is not None]
         if not recs:
